@@ -507,12 +507,14 @@ package providers
 //@ prop C08 C14
 //@ ensures[undecodable-answer-is-an-error] called(UnmarshalInto) && ret(UnmarshalInto) != nil ==> !ret0 && ret1 != nil
 //@ ensures[verified-only-if-the-list-says-so] ret0 ==> ret1 == nil && called(isVerifiedUser) && ret(isVerifiedUser)
+//@ at call isVerifiedUser assert[the-login-the-user-endpoint-reported] arg(isVerifiedUser, 1) == user.Login
 
 //@ func (*GitHubProvider).hasRepoAccess
 //@ safety
 //@ prop C08 C14
 //@ ensures[undecodable-answer-is-an-error] called(UnmarshalInto) && ret(UnmarshalInto) != nil ==> result != nil
 //@ ensures[access-only-from-a-decoded-answer] result == nil ==> called(UnmarshalInto) && ret(UnmarshalInto) == nil
+//@ ensures[access-only-with-push-or-pull-on-a-private-repository] result == nil ==> repo.Permissions.Push || (repo.Private && repo.Permissions.Pull)
 
 //@ func (*GitHubProvider).getUser
 //@ safety
@@ -544,6 +546,11 @@ package providers
 //@ func (*GitHubProvider).hasOrg
 //@ safety
 //@ nomod
+//@ loop 0 invariant[orgs-are-groups-of-the-session] rangeindex >= -1 && forall j int :: 0 <= j && j < len(orgs) ==>
+//@     exists k int :: 0 <= k && k < len(s.Groups) && s.Groups[k] == orgs[j]
+//@ loop 1 invariant[orgs-are-still-groups-of-the-session] rangeindex >= -1 && forall j int :: 0 <= j && j < len(orgs) ==>
+//@     exists k int :: 0 <= k && k < len(s.Groups) && s.Groups[k] == orgs[j]
+//@ ensures[member-only-if-the-org-is-among-the-sessions-groups] result == nil ==> exists k int :: 0 <= k && k < len(s.Groups) && s.Groups[k] == p.Org
 //@ prop C08
 
 //@ func (*GitHubProvider).hasOrgAndTeam
@@ -571,6 +578,12 @@ package providers
 //@ safety
 //@ prop C08 C14
 //@ requires[config:provider-urls-defaulted] p.ValidateURL != nil
+//@ ensures[the-configured-repository-must-be-listed] ret0 != "" && p.Repository != "" ==> exists j int :: 0 <= j && j < len(repositories.Values)
+//@     && repositories.Values[j].FullName == p.Repository
+//@ ensures[the-configured-team-must-be-listed] ret0 != "" && p.Team != "" && p.Repository == "" ==> exists j int :: 0 <= j && j < len(teams.Values)
+//@     && teams.Values[j].Name == p.Team
+//@ at call Split assert[the-configured-team-must-be-listed-before-the-repository-is-asked-for] p.Team != "" ==> exists j int :: 0 <= j
+//@     && j < len(teams.Values) && teams.Values[j].Name == p.Team
 //@ ensures[undecodable-email-answer-is-an-error] called(UnmarshalInto#0) && ret(UnmarshalInto#0) != nil ==> ret0 == "" && ret1 != nil
 //@ ensures[team-lookup-must-succeed] ret0 != "" && p.Team != "" ==> called(UnmarshalInto#1) && ret(UnmarshalInto#1) == nil
 //@ ensures[repository-lookup-must-succeed] ret0 != "" && p.Repository != "" ==> called(UnmarshalInto#2) && ret(UnmarshalInto#2) == nil
@@ -740,3 +753,158 @@ package providers
 //@             && ret0(getProjectInfo).Permissions.ProjectAccess.AccessLevel >= arg(formatProject, 0).AccessLevel)
 //@         || (ret0(getProjectInfo).Permissions.ProjectAccess == nil && ret0(getProjectInfo).Permissions.GroupAccess != nil
 //@             && ret0(getProjectInfo).Permissions.GroupAccess.AccessLevel >= arg(formatProject, 0).AccessLevel)
+
+// ------------------------------------------------------------------ C14 / C05 / C04: login.gov's own redemption
+//@ nonnil LoginGovProvider.ProviderData
+//@ stable LoginGovProvider.ProviderData LoginGovProvider.Nonce
+//@ prop C05
+//@ scan[login-gov-nonce-written-by-its-constructor] field-writers LoginGovProvider.Nonce providers.NewLoginGovProvider
+
+//@ func (*LoginGovProvider).Redeem
+//@ prop C14 C05 C04
+//@ ensures[no-code-no-session] code == "" ==> ret1 == ErrMissingCode && ret0 == nil
+//@ ensures[token-endpoint-failure-gives-no-session] called(UnmarshalInto) && ret(UnmarshalInto) != nil ==> ret0 == nil && ret1 != nil
+//@     && !called(checkNonce) && !called(emailFromUserInfo)
+//@ ensures[a-failed-nonce-check-gives-no-session] called(checkNonce) && ret(checkNonce) != nil ==> ret0 == nil && ret1 != nil && !called(emailFromUserInfo)
+//@ ensures[an-unverified-or-missing-address-gives-no-session] called(emailFromUserInfo) && ret1(emailFromUserInfo) != nil ==> ret0 == nil && ret1 != nil
+//@ ensures[session-only-after-nonce-check-and-verified-address] ret0 != nil ==> ret1 == nil && called(checkNonce) && ret(checkNonce) == nil
+//@     && arg(checkNonce, 1) == p && called(emailFromUserInfo) && ret1(emailFromUserInfo) == nil && ret0 == recv(CreatedAtNow)
+//@ ensures[error-means-no-session] ret1 != nil ==> ret0 == nil
+//@ at call CreatedAtNow assert[address-is-what-the-userinfo-endpoint-verified] recv(CreatedAtNow).Email == ret0(emailFromUserInfo)
+//@ at call Add#5 assert[the-logins-pkce-verifier-goes-to-the-token-endpoint] arg(Add#5, 1) == "code_verifier" && arg(Add#5, 2) == codeVerifier
+//@     && codeVerifier != ""
+//@ ensures[a-verifier-is-always-sent-when-there-is-one] codeVerifier != "" && called(Do) ==> called(Add#5)
+//@ at call Add#3 assert[the-callbacks-code-is-redeemed] arg(Add#3, 1) == "code" && arg(Add#3, 2) == code
+
+// the ID token must parse under the provider's published key and carry this provider's nonce
+//@ func checkNonce
+//@ prop C05 C14
+//@ ensures[unparsable-or-badly-signed-token-is-an-error] called(ParseWithClaims) && ret1(ParseWithClaims) != nil ==> result != nil
+//@ ensures[accepted-only-with-the-providers-nonce] result == nil ==> ret1(ParseWithClaims) == nil && arg(ParseWithClaims, 0) == idToken
+//@     && as(ret0(ParseWithClaims).Claims, "*loginGovCustomClaims").Nonce == p.Nonce
+
+//@ func emailFromUserInfo
+//@ safety
+//@ prop C14 C04
+//@ ensures[failed-lookup-gives-no-address] called(UnmarshalInto) && ret(UnmarshalInto) != nil ==> ret0 == "" && ret1 != nil
+//@ ensures[an-address-or-an-error] ret1 == nil ==> ret0 != ""
+//@ ensures[error-means-no-address] ret1 != nil ==> ret0 == ""
+
+//@ func (*LoginGovProvider).GetLoginURL
+//@ prop C05 C03
+//@ at call makeLoginURL assert[the-callers-parameters-reach-the-url] arg(makeLoginURL, 3) == extraParams && arg(makeLoginURL, 1) == redirectURI
+//@     && arg(makeLoginURL, 2) == state
+//@ at call Add#1 assert[the-providers-nonce-is-sent] arg(Add#1, 1) == "nonce" && arg(Add#1, 2) == p.Nonce
+//@ ensures[nonce-always-sent] called(Add#1)
+
+// ------------------------------------------------------------------ C14 / C04 / C05: the OIDC code redemption and the mandatory address
+//@ func (*OIDCProvider).Redeem
+//@ prop C14 C04 C05
+//@ ensures[failed-exchange-gives-no-session] called(Exchange) && ret1(Exchange) != nil ==> ret0 == nil && ret1 != nil && !called(createSession)
+//@ ensures[session-only-from-the-exchanged-token-through-verification] ret0 != nil ==> called(createSession) && ret0 == ret0(createSession)
+//@     && ret1(Exchange) == nil && arg(createSession, 2) == ret0(Exchange) && !arg(createSession, 3)
+//@ ensures[error-means-no-session] ret1 != nil ==> ret0 == nil
+//@ at call SetAuthURLParam assert[the-logins-pkce-verifier-goes-to-the-token-endpoint] arg(SetAuthURLParam, 0) == "code_verifier"
+//@     && arg(SetAuthURLParam, 1) == codeVerifier && codeVerifier != ""
+//@ ensures[a-verifier-is-always-sent-when-there-is-one] codeVerifier != "" && called(Exchange) ==> called(SetAuthURLParam)
+//@ at call Exchange assert[the-callbacks-code-is-redeemed] arg(Exchange, 2) == code
+
+//@ func (*OIDCProvider).EnrichSession
+//@ safety
+//@ nomod
+//@ prop C14 C04
+//@ ensures[a-session-without-an-address-is-refused] result == nil <==> s.Email != ""
+
+// ------------------------------------------------------------------ C14 / C12: the legacy Azure provider's refresh and enrichment
+//@ nonnil AzureProvider.ProviderData
+//@ stable AzureProvider.ProviderData
+//@ func (*AzureProvider).RefreshSession
+//@ safety
+//@ nilable s
+//@ prop C14 C12
+//@ ensures[no-refresh-token-no-refresh] s == nil ==> !ret0 && ret1 == nil && !called(redeemRefreshToken)
+//@ ensures[refreshed-only-on-success] ret0 ==> ret1 == nil && called(redeemRefreshToken) && ret(redeemRefreshToken) == nil
+//@     && arg(redeemRefreshToken, 2) == s
+//@ ensures[refresh-failure-is-an-error] called(redeemRefreshToken) && ret(redeemRefreshToken) != nil ==> !ret0 && ret1 != nil
+//@ ensures[error-not-refreshed] ret1 != nil ==> !ret0
+
+//@ func (*AzureProvider).redeemRefreshToken
+//@ prop C14 C12 C09
+//@ requires[config:provider-urls-defaulted] p.RedeemURL != nil
+//@ ensures[failure-assigns-nothing-to-the-session] result != nil ==> !stored("SessionState.AccessToken") && !stored("SessionState.IDToken")
+//@     && !stored("SessionState.RefreshToken") && !called(CreatedAtNow) && !called(SetExpiresOn)
+//@ ensures[token-endpoint-failure-is-an-error] called(UnmarshalInto) && ret(UnmarshalInto) != nil ==> result != nil
+//@ at call Add#2 assert[this-sessions-refresh-token-is-redeemed] arg(Add#2, 1) == "refresh_token" && arg(Add#2, 2) == s.RefreshToken
+//@ ensures[refreshed-session-is-restamped] result == nil ==> called(CreatedAtNow) && recv(CreatedAtNow) == s && called(SetExpiresOn) && recv(SetExpiresOn) == s
+//@ at call extractClaimsIntoSession assert[claims-of-this-session-after-the-new-tokens-are-in] arg(extractClaimsIntoSession, 2) == s
+
+//@ func (*AzureProvider).EnrichSession
+//@ prop C14 C04
+//@ ensures[a-failed-address-lookup-is-an-error] called(getEmailFromProfileAPI) && ret1(getEmailFromProfileAPI) != nil ==> result != nil
+//@     && !stored("SessionState.Email")
+//@ ensures[a-failed-group-lookup-is-an-error] called(getGroupsFromProfileAPI) && ret1(getGroupsFromProfileAPI) != nil ==> result != nil
+//@     && !stored("SessionState.Groups")
+//@ at call getEmailFromProfileAPI assert[looked-up-with-this-sessions-token-only-when-no-address-is-known] session.Email == ""
+//@     && arg(getEmailFromProfileAPI, 2) == session.AccessToken
+//@ at call extractClaimsIntoSession assert[claims-of-this-session] arg(extractClaimsIntoSession, 2) == session
+
+// ------------------------------------------------------------------ C04 / C08 / C14: Keycloak-OIDC roles come from a verified access token only
+//@ func (*KeycloakOIDCProvider).EnrichSession
+//@ prop C14 C08 C04
+//@ ensures[oidc-enrichment-and-role-extraction-must-both-succeed] result == nil ==> ret(EnrichSession) == nil && called(extractRoles)
+//@     && ret(extractRoles) == nil && arg(extractRoles, 2) == s
+//@ ensures[no-roles-for-a-session-the-oidc-provider-refused] called(EnrichSession) && ret(EnrichSession) != nil ==> result != nil && !called(extractRoles)
+
+//@ func (*KeycloakOIDCProvider).extractRoles
+//@ prop C14 C08 C04
+//@ ensures[unverifiable-access-token-adds-no-roles] called(getAccessClaims) && ret1(getAccessClaims) != nil ==> result != nil
+//@     && !stored("SessionState.Groups")
+//@ at call getAccessClaims assert[claims-of-this-session] arg(getAccessClaims, 2) == s
+
+//@ func (*KeycloakOIDCProvider).getAccessClaims
+//@ prop C04 C14
+//@ at call Verify assert[the-access-token-is-verified-by-the-configured-verifier] recv(Verify) == p.Verifier && arg(Verify, 1) == s.AccessToken
+//@ ensures[claims-only-from-a-verified-token] ret1 == nil ==> called(Verify) && ret1(Verify) == nil && called(Claims) && ret(Claims) == nil
+//@     && recv(Claims) == ret0(Verify)
+//@ ensures[error-means-no-claims] ret1 != nil ==> ret0 == nil
+
+// ------------------------------------------------------------------ C14 / C08: Entra ID enrichment: group overage is read from Graph with this session's token, failures add nothing
+//@ func (*MicrosoftEntraIDProvider).EnrichSession
+//@ prop C14 C08
+//@ ensures[a-session-the-oidc-provider-refused-stays-refused] called(EnrichSession) && ret(EnrichSession) != nil ==> result != nil
+//@     && !called(checkGroupOverage) && !called(addGraphGroupsToSession)
+//@ ensures[an-unreadable-token-is-an-error] called(checkGroupOverage) && ret1(checkGroupOverage) != nil ==> result != nil && !called(addGraphGroupsToSession)
+//@ at call addGraphGroupsToSession assert[graph-groups-only-on-overage-for-this-session] ret0(checkGroupOverage) && ret1(checkGroupOverage) == nil
+//@     && arg(addGraphGroupsToSession, 2) == session && arg(checkGroupOverage, 1) == session
+
+//@ func (*MicrosoftEntraIDProvider).addGraphGroupsToSession
+//@ prop C14 C08
+//@ loop 0 invariant[page-loop] true
+//@ ensures[a-failed-graph-page-adds-no-groups] called(UnmarshalSimpleJSON) && ret1(UnmarshalSimpleJSON) != nil ==> !stored("SessionState.Groups")
+
+// ------------------------------------------------------------------ C14 / C04: ADFS falls back to the upn claim of this session's own tokens
+//@ func (*ADFSProvider).EnrichSession
+//@ prop C14 C04
+//@ ensures[upn-fallback-decides-when-oidc-enrichment-failed] called(oidcEnrichFunc) && ret(oidcEnrichFunc) != nil ==> called(fallbackUPN)
+//@     && result == ret(fallbackUPN)
+//@ at call fallbackUPN assert[fallback-on-this-session] arg(fallbackUPN, 2) == s
+//@ at call oidcEnrichFunc assert[oidc-enrichment-of-this-session] arg(oidcEnrichFunc, 1) == s
+
+//@ func (*ADFSProvider).fallbackUPN
+//@ prop C14 C04
+//@ ensures[unreadable-claims-are-an-error] (called(getClaimExtractor) && ret1(getClaimExtractor) != nil) || (called(GetClaim) && ret2(GetClaim) != nil)
+//@     ==> result != nil && !stored("SessionState.Email")
+//@ at call getClaimExtractor assert[claims-of-this-sessions-tokens] arg(getClaimExtractor, 1) == s.IDToken && arg(getClaimExtractor, 2) == s.AccessToken
+//@ at call GetClaim assert[the-upn-claim] arg(GetClaim, 0) == adfsUPNClaim
+
+// the provider's shared data is the object itself: never nil for a constructed provider
+//@ iface Provider.Data
+//@ prop C14 C19 C05
+//@ pure
+//@ ensures[nonnil:the-providers-own-data] result != nil
+
+//@ func (*ProviderData).Data
+//@ safety
+//@ nomod
+//@ prop C14 C19 C05
+//@ ensures[the-object-itself] result == p
